@@ -184,7 +184,24 @@ struct CaInfo {
     shrunk: bool,
 }
 
+/// What the accepted commands should have left behind (an oracle that is
+/// independent of `apply`): updated only when the public operation
+/// reported success.
+#[derive(Clone, Debug, Default)]
+pub struct CaExpect {
+    /// configured ROAs as "prefix => asn"
+    roas: std::collections::BTreeSet<String>,
+    /// customer -> providers
+    aspas: BTreeMap<u64, std::collections::BTreeSet<u64>>,
+    /// child -> (IPv4 entitlement, suspended)
+    kids: BTreeMap<String, (String, bool)>,
+}
+
 struct World {
+    /// CAs that were registered as publishers (delete_ca empties but does
+    /// not remove the publisher)
+    ca_publishers: Vec<String>,
+    expect: BTreeMap<String, CaExpect>,
     dir: PathBuf,
     env: Option<Env>,
     opts: EnvOpts,
@@ -200,6 +217,18 @@ struct World {
 impl World {
     fn env(&self) -> &Env {
         self.env.as_ref().unwrap()
+    }
+
+    fn v4_of(ca: &CaInfo, shrunk: bool) -> String {
+        if ca.level == 1 {
+            format!("{}.0.0.0/8", ca.block)
+        }
+        else if shrunk {
+            format!("{}.0.0/17", ca.block)
+        }
+        else {
+            format!("{}.0.0/16", ca.block)
+        }
     }
 
     fn res_of(ca: &CaInfo, shrunk: bool) -> rpki::repository::resources::ResourceSet {
@@ -261,10 +290,27 @@ impl World {
                 }
             };
             what = format!("add_ca {} under {}", name, info.parent);
-            res = setup::add_ca(
-                self.env(), &name, &info.parent, Self::res_of(&info, false)
-            ).map(|_| "ok".into());
-            if res.is_ok() {
+            let mut registered = false;
+            res = (|| {
+                setup::init_ca_with_repo(self.env(), &name)?;
+                self.ca_publishers.push(name.clone());
+                setup::add_parent(
+                    self.env(), &name, &info.parent,
+                    Self::res_of(&info, false)
+                )?;
+                registered = true;
+                setup::sync_parent(self.env(), &name, &info.parent)?;
+                Ok("ok".to_string())
+            })();
+            if registered {
+                self.expect.insert(name.clone(), CaExpect::default());
+                if info.parent != "ta" {
+                    self.expect.entry(info.parent.clone()).or_default().kids
+                        .insert(
+                            name.clone(),
+                            (Self::v4_of(&info, false), false)
+                        );
+                }
                 self.cas.push(info);
             }
         }
@@ -282,6 +328,12 @@ impl World {
                 RoaConfigurationUpdates { added: vec![cfg], removed: vec![] },
                 &actor, krill!(),
             ).map(|_| "ok".into()).map_err(|e| e.to_string());
+            if res.is_ok() {
+                let name = self.cas[i].name.clone();
+                self.expect.entry(name).or_default().roas.insert(
+                    format!("{prefix} => {asn}")
+                );
+            }
         }
         else if pick < 42 {
             let i = self.rng.below(self.cas.len() as u64) as usize;
@@ -299,11 +351,18 @@ impl World {
                 },
                 &actor, krill!(),
             ).map(|_| "ok".into()).map_err(|e| e.to_string());
+            if res.is_ok() {
+                let name = self.cas[i].name.clone();
+                self.expect.entry(name).or_default().roas.remove(
+                    &format!("{prefix} => {asn}")
+                );
+            }
         }
         else if pick < 50 {
             let i = self.rng.below(self.cas.len() as u64) as usize;
             let ca = setup::ca_handle(&self.cas[i].name);
             let customer = 65010 + self.rng.below(3);
+            let mut new_providers = None;
             let updates = if self.rng.below(3) == 0 {
                 AspaDefinitionUpdates {
                     add_or_replace: vec![],
@@ -315,6 +374,7 @@ impl World {
             else {
                 let p1 = 65100 + self.rng.below(3);
                 let p2 = 65110 + self.rng.below(3);
+                new_providers = Some([p1, p2]);
                 AspaDefinitionUpdates {
                     add_or_replace: vec![AspaDefinition::from_str(
                         &format!("AS{customer} => AS{p1}, AS{p2}")
@@ -326,6 +386,18 @@ impl World {
             res = krill!().ca_manager().ca_aspas_definitions_update(
                 ca, updates, &actor, krill!(),
             ).map(|_| "ok".into()).map_err(|e| e.to_string());
+            if res.is_ok() {
+                let name = self.cas[i].name.clone();
+                let exp = self.expect.entry(name).or_default();
+                match new_providers {
+                    Some(p) => {
+                        exp.aspas.insert(customer, p.into_iter().collect());
+                    }
+                    None => {
+                        exp.aspas.remove(&customer);
+                    }
+                }
+            }
         }
         else if pick < 58 {
             // parent changes the entitlement of a level-2 child
@@ -348,6 +420,15 @@ impl World {
                 ).map(|_| "ok".into()).map_err(|e| e.to_string());
                 if res.is_ok() {
                     self.cas[i].shrunk = shrunk;
+                    let v4 = Self::v4_of(&self.cas[i], shrunk);
+                    let (p, c) = (
+                        self.cas[i].parent.clone(), self.cas[i].name.clone()
+                    );
+                    if let Some(kid)
+                        = self.expect.entry(p).or_default().kids.get_mut(&c)
+                    {
+                        kid.0 = v4;
+                    }
                 }
             }
             else {
@@ -373,6 +454,16 @@ impl World {
                 res = krill!().ca_manager().ca_child_update(
                     &parent, child, req, &actor, krill!(),
                 ).map(|_| "ok".into()).map_err(|e| e.to_string());
+                if res.is_ok() {
+                    let (p, c) = (
+                        self.cas[i].parent.clone(), self.cas[i].name.clone()
+                    );
+                    if let Some(kid)
+                        = self.expect.entry(p).or_default().kids.get_mut(&c)
+                    {
+                        kid.1 = suspend;
+                    }
+                }
             }
             else {
                 what = "child_suspend (no child)".into();
@@ -471,12 +562,20 @@ impl World {
                 res = krill!().ca_manager().delete_ca(
                     &handle, &actor, &self.env().slow
                 ).map(|_| "ok".into()).map_err(|e| e.to_string());
+                if res.is_ok() {
+                    self.expect.remove(&info.name);
+                }
                 if info.parent != "ta" {
-                    let _ = krill!().ca_manager().ca_child_remove(
+                    let removed = krill!().ca_manager().ca_child_remove(
                         &setup::ca_handle(&info.parent),
                         ChildHandle::from_str(&info.name).unwrap(),
                         &actor, krill!(),
                     );
+                    if removed.is_ok() {
+                        self.expect.entry(
+                            info.parent.clone()
+                        ).or_default().kids.remove(&info.name);
+                    }
                 }
             }
             else {
@@ -631,12 +730,19 @@ pub fn mask(v: &Value) -> Value {
 }
 
 struct Checker<'a> {
+    /// (keys, snapshot version) last reported per entity: an observation
+    /// line is written when they changed (or a comparison failed); the
+    /// comparisons themselves are made at every check point
+    last: BTreeMap<String, (Vec<u64>, u64)>,
+    expect: &'a BTreeMap<String, CaExpect>,
+    publishers: Vec<String>,
     env: &'a Env,
     replay: Option<StorageSystem>,
     step: usize,
     lines: Vec<Value>,
     mismatches: Vec<Mismatch>,
     order_only: usize,
+    compared: usize,
 }
 
 impl<'a> Checker<'a> {
@@ -657,6 +763,19 @@ impl<'a> Checker<'a> {
                 entity: ent.into(), what: what.into(),
                 detail: first_diff(&a, &b),
             });
+        }
+    }
+
+    fn emit(
+        &mut self, line: Value, ent: &str, keys: Vec<u64>, snapver: u64,
+        flags: &BTreeMap<String, bool>,
+    ) {
+        self.compared += 1;
+        let ok = flags.values().all(|b| *b);
+        let now = (keys, snapver);
+        if !ok || self.last.get(ent) != Some(&now) {
+            self.last.insert(ent.to_string(), now);
+            self.lines.push(line);
         }
     }
 
@@ -790,13 +909,93 @@ impl<'a> Checker<'a> {
             }
         }
         let live_ver = if live.is_some() { live_ver } else { fresh_ver };
-        self.lines.push(obs_line(
+        self.emit(obs_line(
             &ent, "agg", &keys, snapver, live_ver, fresh_ver, replay_ver,
             &flags, self.step,
-        ));
+        ), &ent, keys, snapver, &flags);
+    }
+
+    /// The live state shows what the accepted commands asked for.
+    fn check_expectations(&mut self) {
+        let krill = &self.env.krill;
+        let mut flags = BTreeMap::new();
+        let ent = "cas#model".to_string();
+        let expect = self.expect;
+        for (name, exp) in expect {
+            let handle = setup::ca_handle(name);
+            let Ok(ca) = krill.ca_manager().get_ca(&handle) else {
+                self.fail(
+                    &mut flags, &ent, &format!("model:{name}"),
+                    "CA is gone".into()
+                );
+                continue
+            };
+            let roas: std::collections::BTreeSet<String>
+                = ca.configured_roas().iter().map(|r| {
+                    let p = &r.roa_configuration.payload;
+                    format!("{} => {}", p.prefix, p.asn)
+                }).collect();
+            let aspas: BTreeMap<u64, std::collections::BTreeSet<u64>>
+                = serde_json::to_value(
+                    ca.aspas_definitions_show()
+                ).unwrap().as_array().map(|defs| defs.iter().map(|d| {
+                    let digits = |v: &Value| -> u64 {
+                        v.to_string().chars().filter(|c| {
+                            c.is_ascii_digit()
+                        }).collect::<String>().parse().unwrap_or(0)
+                    };
+                    (
+                        digits(&d["customer"]),
+                        d["providers"].as_array().map(|ps| {
+                            ps.iter().map(digits).collect()
+                        }).unwrap_or_default()
+                    )
+                }).collect()).unwrap_or_default();
+            // (suspension is not compared: a suspended child that calls in
+            // is unsuspended implicitly)
+            let kids: BTreeMap<String, String>
+                = ca.children().filter(|c| c.as_str() != crate::ca::CHILD)
+                    .map(|c| {
+                let d = ca.get_child(c).unwrap();
+                (c.to_string(), d.resources.to_string())
+            }).collect();
+            let want_kids: BTreeMap<String, String>
+                = exp.kids.iter().map(|(c, (v4, _))| {
+                    (c.clone(),
+                     setup::resources("AS65000-AS65300", v4, "").to_string())
+                }).collect();
+            self.cmp(
+                &mut flags, &ent, &format!("model:{name}:roas"),
+                &json!(roas), &json!(exp.roas), false
+            );
+            self.cmp(
+                &mut flags, &ent, &format!("model:{name}:aspas"),
+                &json!(aspas), &json!(exp.aspas), false
+            );
+            self.cmp(
+                &mut flags, &ent, &format!("model:{name}:children"),
+                &json!(kids), &json!(want_kids), false
+            );
+        }
+        let mut live: Vec<String> = krill.repo_manager().publishers().map(
+            |l| l.iter().map(|p| p.to_string()).collect()
+        ).unwrap_or_default();
+        live.sort();
+        let mut want = self.publishers.clone();
+        want.sort();
+        self.cmp(
+            &mut flags, &ent, "model:publishers", &json!(live), &json!(want),
+            false
+        );
+        self.lines.push(json!({
+            "ev": "obs_api", "thr": 0, "e": ent,
+            "ok": flags.values().all(|b| *b), "flags": flags,
+            "step": self.step,
+        }));
     }
 
     fn check_all(&mut self) {
+        self.check_expectations();
         let krill = &self.env.krill;
         // CAs
         let handles = krill.ca_manager().ca_handles().unwrap_or_default();
@@ -980,9 +1179,15 @@ impl<'a> Checker<'a> {
                 fresh_ver = ja.get("revision").and_then(|v| {
                     v.as_u64()
                 }).unwrap_or(0);
+                // The order of the elements inside an RRDP delta (and of
+                // other lists built from hash maps in apply_rrdp_updated,
+                // rrdp.rs:310-340) differs from load to load. Written delta
+                // files are never regenerated (rrdp.rs:571-590) and the
+                // elements of a delta have distinct URIs, so the order is
+                // not observable: compared as sets (counted in order_only).
                 self.cmp(
                     &mut flags, &ent, "fresh=fresh (deterministic apply)",
-                    &ja, &jb, false,
+                    &ja, &jb, true,
                 );
             }
             (Err(e), _) | (_, Err(e)) => {
@@ -990,10 +1195,10 @@ impl<'a> Checker<'a> {
             }
         }
         let _ = has_snap;
-        self.lines.push(obs_line(
+        self.emit(obs_line(
             &ent, "wal", &keys, snapver, fresh_ver, fresh_ver, fresh_ver,
             &flags, self.step,
-        ));
+        ), &ent, keys, snapver, &flags);
     }
 }
 
@@ -1029,8 +1234,11 @@ fn run_one(beh: &Value, work: &Path, out: &mut TraceOut) {
     let mut world = World {
         dir: dir.clone(), env: Some(env), opts, rng: Rng::new(seed),
         cas: Vec::new(), next_ca: 1, publishers: Vec::new(), next_pub: 1,
-        log: Vec::new(), memory,
+        log: Vec::new(), memory, expect: BTreeMap::new(),
+        ca_publishers: Vec::new(),
     };
+    let mut last_seen = BTreeMap::new();
+    let mut checks = 0usize;
     for n in 1..=steps {
         let line = match common::guarded(|| world.do_step(n)) {
             Outcome::Ok(line) => line,
@@ -1064,8 +1272,13 @@ fn run_one(beh: &Value, work: &Path, out: &mut TraceOut) {
             }
         };
         let mut checker = Checker {
+            last: std::mem::take(&mut last_seen),
+            expect: &world.expect,
+            publishers: world.ca_publishers.iter().cloned().chain(
+                world.publishers.iter().cloned()
+            ).chain(std::iter::once("ta".to_string())).collect(),
             env: world.env(), replay, step: n, lines: Vec::new(),
-            mismatches: Vec::new(), order_only: 0,
+            mismatches: Vec::new(), order_only: 0, compared: 0,
         };
         checker.check_all();
         for line in &checker.lines {
@@ -1077,6 +1290,8 @@ fn run_one(beh: &Value, work: &Path, out: &mut TraceOut) {
                 "detail": m.detail, "step": n,
             }));
         }
+        checks += checker.compared;
+        last_seen = std::mem::take(&mut checker.last);
         if checker.order_only > 0 {
             out.push(&json!({
                 "ev": "note", "thr": 0, "order_only": checker.order_only,
@@ -1084,6 +1299,10 @@ fn run_one(beh: &Value, work: &Path, out: &mut TraceOut) {
             }));
         }
     }
+    out.push(&json!({
+        "ev": "note", "thr": 0, "order_only": 0, "entity_checks": checks,
+        "step": steps,
+    }));
     drop(world);
     let _ = fs::remove_dir_all(&dir);
 }
